@@ -174,11 +174,16 @@ pub struct Enc<'r> {
     pub in_code: bool,
     /// spell every `string` as a literal (C08)
     pub force_literal: bool,
+    /// C16 reference server only: RFC 3501 7.4.2 lets any number of further body-extension items follow the first one
+    /// (`*(SP body-extension)`, "client implementations ... MUST be prepared to accept such extension data"); when set,
+    /// some BODYSTRUCTURE extension tails get one or two more.  Reached only if the FETCH builder can ask for
+    /// BODYSTRUCTURE (the pinned builder offers the non-extensible BODY only).
+    pub more_ext: Option<Rng>,
 }
 
 impl<'r> Enc<'r> {
     pub fn new(rng: &'r mut Rng, vary: bool) -> Self {
-        Enc { out: vec![], rng, vary, literal_spans: vec![], num_spans: vec![], in_code: false, force_literal: false }
+        Enc { out: vec![], rng, vary, literal_spans: vec![], num_spans: vec![], in_code: false, force_literal: false, more_ext: None }
     }
     pub fn raw(&mut self, s: &[u8]) {
         self.out.extend_from_slice(s);
@@ -818,6 +823,39 @@ fn enc_ext_tail(e: &mut Enc, first_present: bool, first: &mut dyn FnMut(&mut Enc
     if need >= 5 {
         e.sp();
         enc_body_extension(e, t.extension.as_ref().unwrap());
+        if let Some(mut r) = e.more_ext.take() {
+            if r.chance(1, 3) {
+                for _ in 0..1 + r.below(2) {
+                    e.sp();
+                    plain_extension(&mut e.out, &mut r, 2);
+                }
+            }
+            e.more_ext = Some(r);
+        }
+    }
+}
+/// a further body-extension item in its plainest spelling (number, NIL, quoted atom-like string, list of those)
+fn plain_extension(out: &mut Vec<u8>, r: &mut Rng, depth: usize) {
+    match r.below(if depth == 0 { 3 } else { 4 }) {
+        0 => out.extend_from_slice(r.below(100000).to_string().as_bytes()),
+        1 => out.extend_from_slice(b"NIL"),
+        2 => {
+            out.push(b'"');
+            for _ in 0..1 + r.below(6) {
+                out.push(b'a' + r.below(26) as u8);
+            }
+            out.push(b'"');
+        }
+        _ => {
+            out.push(b'(');
+            for i in 0..1 + r.below(3) {
+                if i > 0 {
+                    out.push(b' ');
+                }
+                plain_extension(out, r, depth - 1);
+            }
+            out.push(b')');
+        }
     }
 }
 
